@@ -350,11 +350,16 @@ func TestVerifC17(t *testing.T) {
 	}()
 	judge := func(cfg lifeCfg) {
 		vh.CheckpointKey("C17", "C17/crash", cfg)
+		stop := vh.Guard("C17", "C17", cfg, 120*time.Second)
 		o := runLife(t, cfg)
+		stop()
 		res.Add("transitions", int64(len(cfg.Ops)+2))
 		res.Add("states", 1)
 		res.Add("traces_validated_against_impl", 1)
 		res.Add("scenarios", 1)
+		if res.Counters["scenarios"]%300 == 0 {
+			res.Write() // partial results survive a worker that dies later
+		}
 		res.Distinct("outcomes", strings.Join(o.results, ","))
 		for _, p := range o.problems {
 			if res.HasViolation(p.Key) {
